@@ -459,7 +459,7 @@ func runC06(c *ctx) {
 	c.Assume = []string{"hook H2 (pkg/parser/sml/verif_on.go, build tag verif) counts lexer.next, state-function and parser.peek calls of one Parse", "2 GiB address-space limit: a 1 MiB input legitimately needs < 300 MB"}
 
 	exe, _ := os.Executable()
-	work := filepath.Join(c.Root, "work", "C06")
+	work := filepath.Join(c.Root, "work", fmt.Sprintf("C06.%d", os.Getpid()))
 	os.RemoveAll(work)
 	os.MkdirAll(work, 0o755)
 	defer os.RemoveAll(work)
